@@ -85,6 +85,11 @@ var (
 
 var traceClosed bool
 
+var (
+	prevSnapMu sync.Mutex
+	prevSnap   = map[int]int{}
+)
+
 func emit(e event) {
 	traceMu.Lock()
 	if traceClosed {
@@ -331,6 +336,11 @@ func (w *world) installHooks() {
 					"index": int(m.Index), "logterm": int(m.LogTerm), "commit": int(m.Commit), "reject": rej, "nents": len(m.Entries)})
 			}
 		case "saved":
+			if !etcdRaft.IsEmptySnap(rd.Snapshot) {
+				prevSnapMu.Lock()
+				prevSnap[n.idx] = int(rd.Snapshot.Metadata.Index)
+				prevSnapMu.Unlock()
+			}
 			if len(rd.Entries) == 0 && etcdRaft.IsEmptySnap(rd.Snapshot) && etcdRaft.IsEmptyHardState(rd.HardState) {
 				break
 			}
@@ -348,7 +358,13 @@ func (w *world) installHooks() {
 			}
 			// what the local snapshot says about the group's membership (read back from the node's store)
 			sn, _ := wal.NewBadgerWAL(n.db, w.pid).Snapshot()
-			emit(event{"ev": "snapshot", "node": n.idx, "err": es, "snapidx": int(sn.Metadata.Index), "snapnodes": nodeList(sn.Metadata.ConfState.Nodes)})
+			// prev: the index of the snapshot this node's store held at the previous observation (a call that
+			// finds too few new entries leaves it as it is)
+			prevSnapMu.Lock()
+			prev := prevSnap[n.idx]
+			prevSnap[n.idx] = int(sn.Metadata.Index)
+			prevSnapMu.Unlock()
+			emit(event{"ev": "snapshot", "node": n.idx, "err": es, "snapidx": int(sn.Metadata.Index), "prev": prev, "snapnodes": nodeList(sn.Metadata.ConfState.Nodes)})
 		}
 		// crash plan
 		due := int(atomic.LoadInt32(&n.cycles)) >= w.sc.CrashCycle
